@@ -49,6 +49,7 @@ def check(run):
     run.rule_text = "F-PATH boolean dominance + tolerance bound from the margin + truth table + C13's extreme-latitude obligations"
     run.assumptions = ["IEEE double: np.finfo(float).eps = 2.22e-16", "admissible inputs keep every decision at least 1e-6 rad from its boundary (the property's quantifier)"]
     _intersection(run, P)
+    _on_circle_tolerance(run, P)
     _pole_latitude(run, P)
     _extreme(run, P)
 
@@ -214,3 +215,37 @@ def _pole_latitude(run, P):
         run.incomplete("F-PATH/pole-choice", c, where(f), "extent not found")
     else:
         run.note("F-PATH/pole-choice", c, where(f, le), f"extent formula is {norm(le.value)} (not compared)")
+
+
+# a point is accepted as 'on the great circle' when |cross(v0, v1) . p| <= T; the normal has length sin(L), so the accepted angular
+# distance is T / sin(L).  Admissible queries are at least the margin m away from every decision boundary, arcs shorter than 2 m have
+# no admissible interior point, hence T must stay below m * sin(2 m).
+MAX_ON_CIRCLE_TOL = MARGIN * 2 * MARGIN
+
+
+def _on_circle_tolerance(run, P):
+    f = P.func(f"{ARCS}:_point_within_gca_body")
+    c = f"{f.key}:on-circle-tolerance"
+    test = None
+    defs = LocalDefs(f.node)
+    for n in ast.walk(f.node):
+        if isinstance(n, ast.Call) and (dotted(n.func) or [""])[-1] in ("allclose", "isclose") and n.args and isinstance(n.args[0], ast.Call) and (dotted(n.args[0].func) or [""])[-1] == "dot":
+            nodes, _ = defs.closure(n.args[0])
+            if any(isinstance(x, ast.Call) and (dotted(x.func) or [""])[-1] in ("cross", "cross_fma") for e in nodes for x in ast.walk(e)):
+                normalised = any(isinstance(x, ast.Call) and (dotted(x.func) or [""])[-1] in ("norm", "_normalize_xyz", "_normalize_xyz_scalar") for e in nodes for x in ast.walk(e))
+                if not normalised:
+                    test = n
+    if test is None:
+        run.incomplete("F-PATH/on-circle-tolerance", c, where(f), "plane test dot(cross(v0, v1), pt) ~ 0 not found")
+        return
+    at = next((k.value for k in test.keywords if k.arg == "atol"), None)
+    rt = next((k.value for k in test.keywords if k.arg == "rtol"), None)
+    a = _const_number(P, f.module, at, f) if at is not None else 1e-8
+    if a is None:
+        run.incomplete("F-PATH/on-circle-tolerance", c, where(f, test), f"tolerance {norm(at)} not foldable")
+    elif a >= MAX_ON_CIRCLE_TOL:
+        run.violation("F-PATH/on-circle-tolerance", c, where(f, test),
+                      f"a point counts as lying on the great circle when |cross(v0, v1) . p| <= {a:g}; the normal is not normalised (length sin L), so for short arcs points up to {a:g}/sin(L) rad off the circle are accepted - "
+                      f"more than the 1e-6 rad margin for every arc shorter than {a / MARGIN:.2g} rad (bound {MAX_ON_CIRCLE_TOL:.1g})", facts={"atol": a, "bound": MAX_ON_CIRCLE_TOL})
+    else:
+        run.holds("F-PATH/on-circle-tolerance", c, where(f, test), f"absolute tolerance {a:g} < {MAX_ON_CIRCLE_TOL:.1g} (no admissible off-circle point is accepted through the scale of the normal)", facts={"atol": a, "bound": MAX_ON_CIRCLE_TOL})
